@@ -274,7 +274,8 @@ Occurrences(buf) == {k \in 1..(Len(buf) - 3) : buf[k] = 68 /\ buf[k + 1] = 76 /\
 FrameMatches(fr, buf, r) == /\ fr.end > 0 /\ r.consumed = fr.end /\ r.consumed <= Len(buf)
                             /\ r.v \in {"msg", "filtered"} => r.n = fr.n                \* reported payload length = the distance
 FrameOk(buf, sh, api, r) ==      \* r: [v, consumed, n]
-  IF r.v \notin {"msg", "filtered", "skipped", "invalid"} THEN TRUE          \* the property speaks about successful calls only
+  IF r.v = "misaligned" THEN FALSE                                           \* a successful call whose remainder is not the input's suffix behind the reported count
+  ELSE IF r.v \notin {"msg", "filtered", "skipped", "invalid"} THEN TRUE     \* the property speaks about successful calls only
   ELSE IF sh THEN \E k \in Occurrences(buf) : FrameMatches(FrameAtOcc(buf, k), buf, r)     \* parser and skipper alike ("after any bytes skipped in front of the pattern")
   ELSE FrameMatches(FrameOf(buf, sh, api), buf, r)
 
